@@ -77,20 +77,11 @@ _unraisable_installed = False
 
 def install_static_stubs():
     global _unraisable_installed
-    if hasattr(helpers, '_check_system_overload_if_needed'):
-        import inspect
-        if inspect.iscoroutinefunction(helpers._check_system_overload_if_needed) and not getattr(helpers._check_system_overload_if_needed, '_vfw_stub', False):
-            async def _anoop(*a, **k):
-                return None
-            _anoop._vfw_stub = True
-            helpers._check_system_overload_if_needed = _anoop
-        elif not getattr(helpers._check_system_overload_if_needed, '_vfw_stub', False):
-            def _snoop(*a, **k):
-                return None
-            _snoop._vfw_stub = True
-            helpers._check_system_overload_if_needed = _snoop
-        if 'helpers._check_system_overload_if_needed -> no-op (psutil sampling blocks 0.1 s of real time)' not in STUBS_ACTIVE:
-            STUBS_ACTIVE.append('helpers._check_system_overload_if_needed -> no-op (psutil sampling blocks 0.1 s of real time)')
+    if hasattr(helpers, '_check_system_overload'):
+        # the psutil sampling itself (blocks 0.1 s of real time) is replaced; the wrapper around it runs for real
+        helpers._check_system_overload = lambda: (False, '')
+        if 'helpers._check_system_overload -> (False, "") (psutil sampling blocks 0.1 s of real time)' not in STUBS_ACTIVE:
+            STUBS_ACTIVE.append('helpers._check_system_overload -> (False, "") (psutil sampling blocks 0.1 s of real time)')
     if not _unraisable_installed:
         sys.unraisablehook = lambda *a: None  # abandoned coroutines of finished paths
         _unraisable_installed = True
@@ -147,6 +138,8 @@ def reset(order=(), keep_semaphores=False):
         helpers.GLOBAL_RETRY_SEMAPHORES.clear()
     if hasattr(helpers, '_active_retry_operations'):
         helpers._active_retry_operations = 0
+    if hasattr(helpers, '_last_overload_check'):
+        helpers._last_overload_check = 0.0      # the first retry call of every path performs the (stubbed) overload check
     _paths_since_gc += 1
     if _paths_since_gc >= 50:
         _paths_since_gc = 0
